@@ -159,8 +159,23 @@ func fbChildMain() {
 		}
 		fmt.Fprintf(out, "B %s\n", a[0])
 		out.Flush()
-		if a[1] == "jbig2mem" || a[1] == "jbig2ledger" { // memory-measured cases, see fb_pool.go
-			word, n, detail := fbChildPoolCase(fbHexDecode(a[4]), a[1] == "jbig2ledger")
+		if strings.HasPrefix(a[1], "slurp") { // input buffering behind expanding filters, see fb_slurp.go
+			word, n, detail := fbChildSlurpCase(a[1], fbAtoi(a[3]), fbHexDecode(a[4]))
+			fmt.Fprintf(out, "E %s %s %d 0 %s\n", a[0], word, n, detail)
+			out.Flush()
+			continue
+		}
+		if w, ok := strings.CutPrefix(a[1], "chain:"); ok { // chain life cycles, see fb_chainleak.go
+			word, n, leaked, detail := fbChildChainCase(w, a[2], fbHexDecode(a[4]))
+			fmt.Fprintf(out, "E %s %s %d %d %s\n", a[0], word, n, leaked, detail)
+			out.Flush()
+			continue
+		}
+		if a[1] == "jbig2mem" || a[1] == "jbig2ledger" || a[1] == "dctmem" { // memory-measured cases, see fb_pool.go
+			word, n, detail := fbChildPoolCase(a[1], fbHexDecode(a[4]), a[1] == "jbig2ledger")
+			if bound := fbAtoi(a[3]); a[1] == "dctmem" && bound >= 0 && n > bound && word == "data" {
+				word, detail = "toomuch", fmt.Sprintf("%d bytes decoded, the frame admits %d; %s", n, bound, detail)
+			}
 			fmt.Fprintf(out, "E %s %s %d 0 %s\n", a[0], word, n, detail)
 			out.Flush()
 			continue
@@ -300,7 +315,16 @@ type fbJPEG struct {
 	twoSOF   bool
 	noDHT    bool
 	noDQT    bool
-	sofCount byte // component count byte written into SOF (0: len(comps))
+	sofCount byte     // component count byte written into SOF (0: len(comps))
+	plan     []fbScan // explicit scan plan (replaces the single default scan)
+}
+
+// fbScan: one SOS segment with its entropy-coded data.
+type fbScan struct {
+	comps      []int // indices into fbJPEG.comps
+	ss, se, ah byte
+	al         byte
+	data       []byte
 }
 
 func fbSeg(marker byte, payload []byte) []byte {
@@ -345,6 +369,21 @@ func (j fbJPEG) segments() [][]byte {
 	}
 	if j.dri > 0 {
 		segs = append(segs, fbSeg(0xdd, []byte{byte(j.dri >> 8), byte(j.dri)}))
+	}
+	if j.plan != nil {
+		for _, sc := range j.plan {
+			sos := []byte{byte(len(sc.comps))}
+			for _, ci := range sc.comps {
+				tab := byte(0)
+				if ci > 0 {
+					tab = 0x11
+				}
+				sos = append(sos, j.comps[ci].id, tab)
+			}
+			sos = append(sos, sc.ss, sc.se, sc.ah<<4|sc.al)
+			segs = append(segs, append(fbSeg(0xda, sos), sc.data...))
+		}
+		return append(segs, []byte{0xff, 0xd9})
 	}
 	sos := []byte{byte(len(j.comps))}
 	for i, c := range j.comps {
@@ -513,7 +552,7 @@ func replayChild(input string) (bool, string) {
 func runFBChild(c *Ctx) {
 	r := c.R.Fork()
 	var cases, notes []string
-	var family []int // 0 synthetic JPEGs, 1 progressive scan floods, 2 JBIG2, 3 JBIG2 memory: one child batch each
+	var family []int // 0 synthetic JPEGs, 1 progressive scan floods, 2 JBIG2, 3 JBIG2 memory, 4 chain life cycles, 5 chains with Flate below DCT closed early: one child batch each
 	note, fam := "", 0
 	add := func(kind, mode string, bound int, body []byte) {
 		cases = append(cases, fmt.Sprintf("%s %s %d %s", kind, mode, bound, hexWire(body)))
@@ -606,6 +645,21 @@ func runFBChild(c *Ctx) {
 			add(Pick(r, kinds), Pick(r, modes), -1, body)
 		}
 	}
+	// structured scan plans: SOF0/1/2 x {single, repeated, per component, extra scans}
+	for _, sp := range fbScanPlans(r, c.Thorough) {
+		j := sp.build()
+		var body []byte
+		for _, sg := range j.segments() {
+			body = append(body, sg...)
+		}
+		note = "[jpeg scans " + sp.String() + "]"
+		add(Pick(r, kinds), "all", sp.w*sp.h*sp.ncomp, body)
+		if c.Thorough || sp.repeat == 40 || sp.w >= 1024 || r.P(1, 8) {
+			add("dctmem", "all", sp.w*sp.h*sp.ncomp, body) // the same with the retained heap measured
+		}
+		c.Stat("jpeg_scanplan_" + sp.kind)
+	}
+	note = ""
 	nj := 400
 	if c.Thorough {
 		nj = 6000
@@ -667,12 +721,50 @@ func runFBChild(c *Ctx) {
 		}
 		c.Stat("pool_streams")
 	}
+	// JBIG2Decode behind expanding filters: input buffering within the budget
+	fam = 3
+	for _, sc := range fbSlurpCases() {
+		names := make(pdf.Array, len(sc.filters))
+		for i, n := range sc.filters {
+			names[i] = pdf.Name(n)
+		}
+		note = fmt.Sprintf("[slurp %s over %d bytes: %s]", strings.Join(sc.filters, " "), len(sc.body), sc.note)
+		add("slurp:"+wire(pdf.Dict{"Filter": names}), "all", -1, sc.body)
+		c.Stat("slurp_chain")
+	}
+	for _, raw := range []int{0, 300, 100000} {
+		note = fmt.Sprintf("[slurp direct: FilterJBIG2.Decode on an endless reader, budget of a %d-byte stream]", raw)
+		add("slurpdirect", "all", raw, []byte{0})
+		add("slurpdirect", "all", raw, []byte{1, 2})
+	}
+	// filter chains with the DCT decoder at every position under four life cycles
+	fam = 4
+	{
+		jpgs := [][]byte{fbJPEGBytes(true, 64, 64), fbJPEGBytes(false, 24, 16)}
+		var jb2 []byte
+		if len(seeds) > 0 {
+			jb2 = fbEmitJSegs(seeds[0].segs)
+		}
+		for i, cc := range fbChainCases(r, c.Thorough) {
+			dict, body := fbChainBuild(cc, jpgs[i%2], jb2)
+			note = fmt.Sprintf("[chain %s %s failK=%d]", strings.Join(cc.names, ","), cc.mode, cc.failK)
+			cases = append(cases, fmt.Sprintf("chain:%s %s -1 %s", wire(dict), cc.mode, hexWire(body)))
+			notes = append(notes, note)
+			if cc.racy() {
+				family = append(family, 5)
+				c.Stat("chain_flate_below_dct")
+			} else {
+				family = append(family, fam)
+			}
+			c.Stat("chain_" + cc.mode)
+		}
+	}
 	note = ""
 	c.StatN("child_cases", len(cases))
 	res := make([]fbChildResult, len(cases))
 	var wg sync.WaitGroup
-	var ms [4]int
-	for f := 0; f < 4; f++ { // the families run in children side by side
+	var ms [6]int
+	for f := 0; f < 6; f++ { // the families run in children side by side
 		wg.Add(1)
 		go func(f int) {
 			defer wg.Done()
@@ -703,6 +795,22 @@ func runFBChild(c *Ctx) {
 	for i, rs := range res {
 		c.Case("child:"+cases[i], rs.word == "data" || rs.n > 0)
 		kindWord, _, _ := strings.Cut(strings.Fields(cases[i])[0], "+")
+		if strings.HasPrefix(kindWord, "chain:") {
+			kindWord = "chain"
+		}
+		if kindWord == "slurpdirect" { // correspondence: pulled bytes = the model's cap + 1
+			_, av, ok1 := strings.Cut(rs.detail, "avail=")
+			_, pu, ok2 := strings.Cut(rs.detail, "pulled=")
+			if ok1 && ok2 {
+				c.Emit("FB jbig2pull "+strings.Fields(av)[0], strings.Fields(pu)[0])
+			}
+		}
+		if strings.HasPrefix(kindWord, "slurp") {
+			kindWord = "slurp"
+			if len(c.rep.Samples) < 12 {
+				c.Sample(fmt.Sprintf("%s -> %s %s", notes[i], rs.word, fbTruncStr(rs.detail)))
+			}
+		}
 		if strings.HasPrefix(notes[i], "[progressive") {
 			kindWord = "prog"
 		}
@@ -717,7 +825,11 @@ func runFBChild(c *Ctx) {
 		switch rs.word {
 		case "data", "malformed", "budget", "skipped":
 		case "crash", "hang":
-			c.Violate("fb-hostile-child", "child-"+rs.word, fmt.Sprintf("the decoder took the process down or did not return: %s %s %s", rs.detail, notes[i], rs.stderr), in)
+			key := "child-" + rs.word
+			if family[i] == 5 && rs.word == "crash" && strings.Contains(rs.stderr, "compress/") {
+				key = "chain-close-race"
+			}
+			c.Violate("fb-hostile-child", key, fmt.Sprintf("the decoder took the process down or did not return: %s %s %s", rs.detail, notes[i], rs.stderr), in)
 		case "panic":
 			c.Violate("fb-hostile-child", "panic", "decoder panicked: "+rs.detail, in)
 		case "toomuch":
@@ -728,6 +840,10 @@ func runFBChild(c *Ctx) {
 				key = "jbig2-halftone-empty-grid"
 			}
 			c.Violate("fb-hostile-child", key, rs.detail+" "+notes[i], in)
+		case "slurp":
+			c.Violate("fb-hostile-child", "input-buffering-beyond-budget", rs.detail+" "+notes[i], in)
+		case "heapgrowth":
+			c.Violate("fb-hostile-child", "chain-heap-growth", "retained heap grew over 50 DecodeStream/Close cycles: "+rs.detail+" "+notes[i], in)
 		case "overbudget":
 			c.Violate("fb-hostile-child", "memory-beyond-budget", "retained heap exceeds the stream budget: "+rs.detail+" "+notes[i], in)
 		case "accounting":
@@ -741,7 +857,10 @@ func runFBChild(c *Ctx) {
 		default:
 			c.Violate("fb-hostile-child", "non-malformed-error", "error is not classified as malformed input: "+rs.detail, in)
 		}
-		if rs.leaked > 0 {
+		if rs.leaked > 0 && strings.HasPrefix(cases[i], "chain:") {
+			c.Stat("chain_leak_" + strings.Fields(cases[i])[1])
+			c.Violate("fb-hostile-child", "chain-goroutine-leak", fmt.Sprintf("%d goroutine(s) still running after 50 DecodeStream/Close cycles (%s %s) %s", rs.leaked, rs.word, rs.detail, notes[i]), in)
+		} else if rs.leaked > 0 {
 			c.Violate("fb-hostile-child", "goroutine-leak", fmt.Sprintf("%d goroutine(s) still running after Close (%s)", rs.leaked, rs.word), in)
 		}
 		if i < 2 {
